@@ -34,6 +34,7 @@ func init() {
 			{Name: "huge", QShards: 16, TShards: 16, Run: c06Huge},
 			{Name: "histories", QShards: 2, TShards: 6, Run: codecHistories(c06Formats...)},
 			{Name: "readerzoo", QShards: 8, TShards: 10, Run: c06ReaderZoo},
+			{Name: "bigfiles", QShards: 3, TShards: 6, Run: c06BigFiles},
 			{Name: "parallel", Race: true, TShards: 2, Run: c06Parallel},
 			{Name: "prefixes", Run: func(c *Ctx) {
 				for i, f := range c06Formats {
@@ -472,6 +473,14 @@ func c06Files(c *Ctx) {
 							names["a read-only file whose name has blanks and non-ASCII letters"] = odd
 						}
 						names["a path with ./, // and .. in it"] = sub + "/.//../" + filepath.Base(sub) + "/../" + filepath.Base(tgt.path)
+						if tgt.path == plain {
+							for _, e := range []string{"", ".txt", ".bam", ".cram", ".dat", ".vcf", ".SAM", ".1"} {
+								other := filepath.Join(sub, "named"+e)
+								if os.WriteFile(other, x, 0o644) == nil {
+									names["a file whose name ends in "+fmt.Sprintf("%q", e)] = other
+								}
+							}
+						}
 						for what, p := range names {
 							got, over := collect(cd.file(p), len(x)+8)
 							if over || !sameTrace(got, ref) {
@@ -834,5 +843,75 @@ func c06Parallel(c *Ctx) {
 			})
 			idx++
 		}
+	}
+}
+
+// c06BigFiles: files of more than 32 MiB ON DISK — plain, gzip-compressed with
+// stored blocks (so that the *.gz file itself is that big) and gzip-compressed
+// normally — through File, compared with Reader on the bytes. A File that
+// chooses its way of opening by the size of the file (a bigger buffer, a
+// memory map, a read-ahead thread above some size) has to keep decompressing
+// and decoding as before. Quick: FASTA, FASTQ and SAM; thorough: all formats.
+func c06BigFiles(c *Ctx) {
+	formats := []string{"fasta", "fastq", "sam"}
+	if c.Thorough {
+		formats = c06Formats
+	}
+	dir, err := os.MkdirTemp("", "c06-big-")
+	if err != nil {
+		c.Info("bigfiles_skipped", err.Error())
+		return
+	}
+	defer os.RemoveAll(dir)
+	for i, f := range formats {
+		c.Case(int64(i), func(k *K) {
+			r := k.Rand()
+			cd := codecByName(f)
+			gen := f
+			if gen == "samh" {
+				gen = "sam"
+			}
+			const want = 33<<20 + 12345
+			var x []byte
+			unit := giantText(r, gen, 1<<20)
+			for len(x) < want {
+				x = append(x, unit...)
+				if gen == "bed" || gen == "newick" {
+					continue
+				}
+				x = append(x, wellFormed(r, gen, 20)...)
+			}
+			k.Input("format", f)
+			k.Input("bytes", len(x))
+			ref, over := collect(cd.seq(bytes.NewReader(x)), 1<<20)
+			if over {
+				return
+			}
+			var stored bytes.Buffer
+			zw, _ := gzip.NewWriterLevel(&stored, gzip.NoCompression)
+			zw.Write(x)
+			zw.Close()
+			files := map[string][]byte{"big" + cd.ext: x, "big-stored" + cd.ext + ".gz": stored.Bytes(), "big-deflated" + cd.ext + ".gz": gzipBytes(x, 1)}
+			for name, data := range files {
+				p := filepath.Join(dir, fmt.Sprint(i)+name)
+				if os.WriteFile(p, data, 0o644) != nil {
+					k.Count("file_write_failed", 1)
+					continue
+				}
+				got, over := collect(cd.file(p), 1<<20)
+				os.Remove(p)
+				if over || !sameTrace(got, ref) {
+					d := 0
+					for d < len(got) && d < len(ref) && got[d] == ref[d] {
+						d++
+					}
+					k.Failf("file-big", "%s.File on %s (%d bytes on disk, %d bytes of text) yields %d items, Reader on the text %d; first difference at item %d", f, name, len(data), len(x), len(got), len(ref), d)
+					return
+				}
+				k.Count("big_files_compared", 1)
+				k.Evals(1)
+			}
+			k.Nontrivial([]byte(f), []byte("bigfiles"))
+		})
 	}
 }
